@@ -212,7 +212,7 @@ def make_callables(rec):
         header.append({"unsafe": bool(getattr(t, "unsafe_callable", False)),
                        "alters": bool(getattr(t, "alters_data", False)),
                        "name": str(getattr(t, "__name__", type(t).__name__)),
-                       "denied": name in DENY_LIST})
+                       "denied": name in DENY_LIST, "recv": False})
         if name in DENY_LIST and KIND[name] != "method":
             deny.append(t)
     return out, targets, header, deny
@@ -236,17 +236,53 @@ def sources(name, kind):
             "nested": "fd.inner.k2"}
 
 
+# alias step -> (default variable name, template(e, body, n, v)); v = the variable the step binds (None: the
+# step binds a name the engine fixes).  n numbers the steps so that helper macros do not collide.
 ALIASES = {
-    "set": lambda e, body, n: "{%% set a%d = %s %%}%s" % (n, e, body(f"a{n}")),
-    "with": lambda e, body, n: "{%% with a%d = %s %%}%s{%% endwith %%}" % (n, e, body(f"a{n}")),
-    "macro_param": lambda e, body, n: "{%% macro m%d(h%d) %%}%s{%% endmacro %%}{{ m%d(%s) }}" % (
-        n, n, body(f"h{n}"), n, e),
-    "loop_var": lambda e, body, n: "{%% for h%d in [%s] %%}%s{%% endfor %%}" % (n, e, body(f"h{n}")),
-    "call_param": lambda e, body, n: "{%% macro c%d() %%}{{ caller(%s) }}{%% endmacro %%}"
-                                     "{%% call(h%d) c%d() %%}%s{%% endcall %%}" % (n, e, n, n, body(f"h{n}")),
-    "tuple_unpack": lambda e, body, n: "{%% set a%d, b%d = %s, 1 %%}%s" % (n, n, e, body(f"a{n}")),
-    "dict_literal": lambda e, body, n: "{%% set g%d = {'f': %s} %%}%s" % (n, e, body(f"g{n}.f")),
+    "set": ("a%d", lambda e, body, n, v: "{%% set %s = %s %%}%s" % (v, e, body(v))),
+    "with": ("a%d", lambda e, body, n, v: "{%% with %s = %s %%}%s{%% endwith %%}" % (v, e, body(v))),
+    "macro_param": ("h%d", lambda e, body, n, v: "{%% macro m%d(%s) %%}%s{%% endmacro %%}{{ m%d(%s) }}" % (
+        n, v, body(v), n, e)),
+    "loop_var": ("h%d", lambda e, body, n, v: "{%% for %s in [%s] %%}%s{%% endfor %%}" % (v, e, body(v))),
+    "call_param": ("h%d", lambda e, body, n, v: "{%% macro c%d() %%}{{ caller(%s) }}{%% endmacro %%}"
+                                                "{%% call(%s) c%d() %%}%s{%% endcall %%}" % (n, e, v, n, body(v))),
+    "tuple_unpack": ("a%d", lambda e, body, n, v: "{%% set %s, b%d = %s, 1 %%}%s" % (v, n, e, body(v))),
+    "dict_literal": ("g%d", lambda e, body, n, v: "{%% set %s = {'f': %s} %%}%s" % (v, e, body(f"{v}.f"))),
+    # the value arrives as the default of a macro parameter
+    "macro_default": ("h%d", lambda e, body, n, v: "{%% macro d%d(%s=%s) %%}%s{%% endmacro %%}{{ d%d() }}" % (
+        n, v, e, body(v), n)),
+    "namespace": ("g%d", lambda e, body, n, v: "{%% set %s = namespace(f=%s) %%}%s" % (v, e, body(f"{v}.f"))),
+    # the implicit arguments of a macro: `caller` handed in explicitly instead of by a call block,
+    # surplus positional / keyword arguments
+    "macro_caller_kw": (None, lambda e, body, n, v: "{%% macro k%d() %%}%s{%% endmacro %%}{{ k%d(caller=%s) }}" % (
+        n, body("caller"), n, e)),
+    "macro_varargs": (None, lambda e, body, n, v: "{%% macro v%d() %%}%s{%% endmacro %%}{{ v%d(%s) }}" % (
+        n, body("varargs[0]"), n, e)),
+    "macro_kwargs": (None, lambda e, body, n, v: "{%% macro w%d() %%}%s{%% endmacro %%}{{ w%d(f=%s) }}" % (
+        n, body("kwargs.f"), n, e)),
 }
+ORIGINAL_ALIASES = ["set", "with", "macro_param", "loop_var", "call_param", "tuple_unpack", "dict_literal"]
+
+# Variable names the engine itself gives a meaning to (implicit macro arguments, the loop object, the template
+# reference, default globals, names of the generated code): a template may bind every one of them like any other
+# name, and what the name holds is called through the same gate.
+ENGINE_NAMES = ["caller", "loop", "varargs", "kwargs", "self", "super", "range", "dict", "lipsum", "cycler",
+                "joiner", "namespace", "context", "environment", "_"]
+NAMEABLE = [a for a, (d, _) in ALIASES.items() if d is not None]
+
+
+def name_allowed(binder, v, nxt=None):
+    """Bindings Jinja refuses at compile time (not calls of anything), and one shape that never ends."""
+    if v == "caller" and binder in ("macro_param", "call_param"):
+        return False      # "caller" as a macro / call-block parameter needs a default: TemplateAssertionError
+    if v == "loop" and binder == "loop_var":
+        return False      # the loop variable cannot be the target of its own loop: TemplateAssertionError
+    if v == "self" and binder == "ctx_name":
+        return False      # render(self=...) is not expressible through keyword arguments
+    if nxt == "call_param" and (v == "caller" or binder == "macro_caller_kw"):
+        return False      # `caller(caller)` inside the helper macro hands the call block to itself: endless recursion
+    return True
+
 
 SITES = {
     "plain": "{{ %s() }}",
@@ -279,13 +315,36 @@ SITES = {
 }
 
 
-def build(src_expr, aliases, site):
+def build(src_expr, aliases, site, vn=(), base=0):
+    """vn[i] = variable name of alias step i ("" = the default name); base shifts the step numbers"""
     def at(i, e):
         if i == len(aliases):
             t = SITES[site]
             return t % ((e,) * t.count("%s"))
-        return ALIASES[aliases[i]](e, lambda v: at(i + 1, v), i + 1)
+        default, tmpl = ALIASES[aliases[i]]
+        n = base + i + 1
+        v = (vn[i] if i < len(vn) and vn[i] else default % n) if default is not None else None
+        return tmpl(e, lambda w: at(i + 1, w), n, v)
     return at(0, src_expr)
+
+
+def pick_names(rnd, aliases):
+    """engine names for the steps of an alias sequence (distinct; "" where none is allowed)"""
+    out, used = [], set()
+    for i, a in enumerate(aliases):
+        nxt = aliases[i + 1] if i + 1 < len(aliases) else None
+        ok = [v for v in ENGINE_NAMES if v not in used and name_allowed(a, v, nxt)] if a in NAMEABLE else []
+        v = rnd.choice(ok) if ok else ""
+        used.add(v)
+        out.append(v)
+    return tuple(out)
+
+
+def seq_allowed(aliases):
+    return all(name_allowed(a, "", b) for a, b in zip(aliases, aliases[1:]))
+
+
+UNSAFE_BASIC = ["delete", "save", "destroy", "inst"]      # marked callables of the basic family (sync)
 
 
 def gen_cases(tier, seed):
@@ -293,9 +352,26 @@ def gen_cases(tier, seed):
     quick = tier == "quick"
     cases = []
     alias_seqs = [()] + [(a,) for a in ALIASES]
-    alias2 = [(a, b) for a in ALIASES for b in ALIASES]
+    alias2 = [(a, b) for a in ALIASES for b in ALIASES if seq_allowed((a, b))]
+    # thorough: every pair of the first seven steps, the later ones paired once in each position
+    alias2_thorough = [(a, b) for a in ORIGINAL_ALIASES for b in ORIGINAL_ALIASES]
+    for a in ALIASES:
+        if a not in ORIGINAL_ALIASES:
+            alias2_thorough += [p for p in ((a, rnd.choice(list(ALIASES))), (rnd.choice(list(ALIASES)), a))
+                                if seq_allowed(p)]
+
+    def modes_pols(name, kind, a, dense):
+        modes = [True] if kind == "async" else ([False, True] if (dense or rnd.random() < 0.2) else [False])
+        for is_async in modes:
+            pols = ["default"]
+            if dense or name == "denied" or rnd.random() < 0.15:
+                pols.append("denyname")
+            if (name in DENY_LIST and (dense or not a or rnd.random() < 0.3)) or rnd.random() < 0.05:
+                pols.append("denyobj")
+            for pol in pols:
+                yield is_async, pol
+
     for name, kind, family in CALLABLES:
-        is_async_callable = kind == "async"
         srcs = sources(name, kind)
         for site in SITES:
             if quick and family == "wrapped":
@@ -305,31 +381,305 @@ def gen_cases(tier, seed):
                          [(rnd.choice(list(srcs)), a) for a in rnd.sample(alias_seqs[1:], 2)] + \
                          [(rnd.choice(list(srcs)), rnd.choice(alias2))]
             else:
-                # basic family: every alias sequence of length <= 1 with every source, every sequence
+                # basic family: every alias sequence of length <= 1 with every source, the sequences
                 # of length 2 with one seeded source; wrapped family: length <= 1 with two sources
                 if family == "basic":
                     combos = [(s, a) for s in srcs for a in alias_seqs] + \
-                             [(rnd.choice(list(srcs)), a) for a in alias2]
+                             [(rnd.choice(list(srcs)), a) for a in alias2_thorough]
                 else:
                     combos = [(s, a) for a in alias_seqs for s in rnd.sample(list(srcs), 2)]
             for s, a in combos:
                 if not a and srcs[s].startswith("(") and site.startswith("call_block"):
                     continue     # `{% call (expr)() %}` is read as a caller signature: not a call of expr
-                modes = [True] if is_async_callable else ([False, True] if (not quick or rnd.random() < 0.2) else [False])
-                for is_async in modes:
-                    pols = ["default"]
-                    if not quick or name == "denied" or rnd.random() < 0.15:
-                        pols.append("denyname")
-                    if (name in DENY_LIST and (not quick or not a or rnd.random() < 0.3)) or rnd.random() < 0.05:
-                        pols.append("denyobj")
-                    for pol in pols:
-                        cases.append((name, kind, s, a, site, is_async, pol))
+                # the variables of the alias steps carry names the engine gives a meaning to
+                vn = pick_names(rnd, a) if a and family == "basic" and rnd.random() < (0.25 if quick else 0.1) else ()
+                for is_async, pol in modes_pols(name, kind, a, not quick):
+                    cases.append((name, kind, s, a, site, is_async, pol, ("",) + vn if vn else ()))
+
+    # -- name sweep: every engine name x every construct that can bind it (incl. the application passing the
+    # callable under that name) x a marked and an arbitrary callable
+    all_names = [c for c in CALLABLES]
+    for v in ENGINE_NAMES:
+        for binder in ["ctx_name"] + NAMEABLE:
+            if not name_allowed(binder, v):
+                continue
+            picks = [rnd.choice(UNSAFE_BASIC), rnd.choice(all_names)[0]]
+            if not quick:
+                picks.append(rnd.choice(all_names)[0])
+            for name in picks:
+                kind = KIND[name]
+                for site in ([rnd.choice(list(SITES))] if quick else list(SITES)):
+                    if binder == "ctx_name":
+                        s, a, vn = "ctx_name", (), (v,)
+                    else:
+                        s, a, vn = rnd.choice(list(sources(name, kind))), (binder,), ("", v)
+                        if rnd.random() < 0.25:         # a second step after the named one
+                            nxt = rnd.choice([b for b in ALIASES if name_allowed(binder, v, b)])
+                            a, vn = (binder, nxt), ("", v, "")
+                    modes = [True] if kind == "async" else ([False, True] if not quick else [rnd.random() < 0.25])
+                    for is_async in modes:
+                        cases.append((name, kind, s, a, site, is_async, "denyname" if name == "denied" else "default", vn))
+    cases += gen_sessions(tier, rnd)
     return cases
 
 
-def run_case(case):
+# ---------------------------------------------------------------------------
+# sessions: ONE environment serves a sequence of renders
+# ---------------------------------------------------------------------------
+# A session is ("session", theme, policy, is_async, renders); a render is a list of calls; a call is
+# [factory, key, marks, source, aliases, site]: the callable is built by `factory` -- afresh for this render
+# (key "") or once per session (same key = same object; for "method": same receiver) --, given the marks
+# (a subset of MARKS; marks of earlier renders are taken back), routed through the grammar above and called.
+FACTORIES = ["closure", "partial", "cobj", "wrapper", "method"]
+MARKS = ["unsafe", "alters", "named", "listed", "frozen"]
+#   unsafe / alters: unsafe_callable / alters_data on the object;  named: its __name__ is on the name deny list;
+#   listed: the object is on the identity deny list;  frozen: the receiver of the method is frozen
+
+
+def session_sources(factory, slot):
+    if factory == "method":
+        return {"attr": f"ob{slot}.save", "attr_sub": f"ob{slot}['save']", "attr_filter": f"(ob{slot}|attr('save'))",
+                "dict_item": f"fd{slot}.k", "list_item": f"fl{slot}[0]", "name": f"t{slot}"}
+    return {"name": f"t{slot}", "dict_item": f"fd{slot}.k", "dict_sub": f"fd{slot}['k']", "list_item": f"fl{slot}[0]",
+            "nested": f"fd{slot}.inner.k2"}
+
+
+def gen_sessions(tier, rnd):
+    quick = tier == "quick"
+    per_theme = 30 if quick else 400
+    length = 6 if quick else 8
+    sites = list(SITES)
+    short_aliases = [()] + [(a,) for a in ALIASES]
+
+    def marks_for(policy, factory, p_bad=0.5):
+        if rnd.random() >= p_bad:
+            # marks another policy would reject are not marks for this one
+            spare = {"default": ["named", "listed", "frozen"], "denyname": ["listed", "frozen"],
+                     "denyobj": ["named", "frozen"], "denyrecv": ["named", "listed"]}[policy]
+            return [rnd.choice(spare)] if rnd.random() < 0.3 else []
+        pool = ["unsafe", "alters"] + {"default": [], "denyname": ["named"] * 2, "denyobj": ["listed"] * 2,
+                                        "denyrecv": ["frozen"] * 4}[policy]
+        return [rnd.choice(pool)]
+
+    def legal(factory, marks):
+        out = [m for m in marks if not (m == "frozen" and factory != "method") and not (m == "listed" and factory == "method")]
+        return out
+
+    def call(factory, key, marks, slot, shape=None):
+        srcs = session_sources(factory, slot)
+        s, a, site = shape or (rnd.choice(list(srcs)), rnd.choice(short_aliases if rnd.random() < 0.5 else [()]),
+                               rnd.choice(sites))
+        if s not in srcs:
+            s = rnd.choice(list(srcs))
+        if not a and srcs[s].startswith("(") and site.startswith("call_block"):
+            site = "plain"
+        return [factory, key, legal(factory, marks), s, list(a), site]
+
+    out = []
+    for theme in ("fresh", "receiver", "remark", "mixed"):
+        for n in range(per_theme):
+            is_async = rnd.random() < 0.25
+            policy = rnd.choice(["default", "denyname", "denyobj", "denyrecv"])
+            renders = []
+            if theme == "fresh":
+                # every request builds its helpers anew and drops them afterwards; same template shape
+                factory = rnd.choice(FACTORIES)
+                srcs = session_sources(factory, 0)
+                shape = (rnd.choice(list(srcs)), rnd.choice(short_aliases[:4]) if rnd.random() < 0.3 else (),
+                         rnd.choice(["plain", "args", "filter_arg", "if_cond", "set_value", "twice", rnd.choice(sites)]))
+                for i in range(length * 2):
+                    renders.append([call(factory, "", marks_for(policy, factory), 0, shape)])
+            elif theme == "receiver":
+                # one method, several receivers, some of them frozen by the application
+                policy = "denyrecv" if rnd.random() < 0.8 else policy
+                order = rnd.sample("ABC", 3)      # at least one receiver whose method is granted, one frozen
+                state = {order[0]: False, order[1]: True, order[2]: rnd.random() < 0.5}
+                for i in range(length):
+                    ks = rnd.sample("ABC", 2 if rnd.random() < 0.5 else 1)
+                    if rnd.random() < 0.2:
+                        ks[-1] = ""                         # a receiver made for this render only
+                    if rnd.random() < 0.15:
+                        k = rnd.choice("ABC")
+                        state[k] = not state[k]             # the application (un)freezes a receiver
+                    renders.append([call("method", k, ["frozen"] if (state[k] if k else rnd.random() < 0.5) else [], j)
+                                    for j, k in enumerate(ks)])
+            elif theme == "remark":
+                # one long-lived object; the application marks / unmarks it between renders
+                factory = rnd.choice(FACTORIES)
+                bad = False
+                for i in range(length):
+                    renders.append([call(factory, "P", marks_for(policy, factory, 1.0 if bad else 0.0), 0)])
+                    bad = not bad if rnd.random() < 0.7 else bad
+            else:
+                keys = ["", "", "P", "Q"]
+                for i in range(length):
+                    cs = []
+                    for j in range(2 if rnd.random() < 0.4 else 1):
+                        factory = rnd.choice(FACTORIES)
+                        key = rnd.choice(keys)
+                        cs.append(call(factory, (key + factory + str(j)) if key else "", marks_for(policy, factory, 0.4), j))
+                    renders.append(cs)
+            out.append(("session", theme, policy, is_async, renders))
+    return out
+
+
+class SessionRecorder(su.Recorder):
+    def callable_index(self, obj):
+        owner = getattr(obj, "__self__", None)
+        if isinstance(owner, SessionReceiver):
+            return owner._jv_method_index
+        return getattr(obj, "_jv_callable_index", 0)
+
+
+class SessionReceiver:
+    """`save` is a method of every receiver: one function, many bound methods"""
+    _jv_method_index = 0
+    _jv_rec = None
+
+    def save(self, *a, **kw):
+        self._jv_rec.emit("ran", v=self._jv_method_index)
+        return "R"
+
+
+def make_session_callable(rec, factory, is_async, cls):
+    """-> (the object the template calls or, for "method", the receiver; set_index(k))"""
+    import functools
+
+    box = [0]
+    if is_async and factory in ("closure", "wrapper"):
+        async def f(*a, **kw):
+            rec.emit("ran", v=box[0])
+            return "R"
+    else:
+        def f(*a, **kw):
+            rec.emit("ran", v=box[0])
+            return "R"
+    f.__name__ = "helper"
+    if factory == "closure":
+        obj = f
+    elif factory == "partial":
+        obj = functools.partial(f, 0)
+    elif factory == "wrapper":
+        def inner(*a, **kw):
+            return "R"
+        inner.__name__ = "helper"
+        if is_async:
+            @functools.wraps(inner)
+            async def obj(*a, **kw):
+                return await f(*a, **kw)
+        else:
+            @functools.wraps(inner)
+            def obj(*a, **kw):
+                return f(*a, **kw)
+    elif factory == "cobj":
+        class Helper:
+            def __call__(self, *a, **kw):
+                return f(*a, **kw)
+        obj = Helper()
+    elif factory == "method":
+        obj = cls()
+
+        def set_index(k):
+            obj._jv_method_index = k
+        return obj, set_index
+    else:
+        raise ValueError(factory)
+
+    def set_index(k):
+        box[0] = k
+        obj._jv_callable_index = k
+    return obj, set_index
+
+
+def set_marks(target, marks, deny, frozen, receiver):
+    """make the marks of the called object exactly `marks` (taking earlier ones back)"""
+    from jinja2.sandbox import unsafe
+
+    holder = getattr(target, "__func__", target)          # a bound method shows the attributes of its function
+    if "unsafe" in marks:
+        unsafe(holder)
+    elif "unsafe_callable" in vars(holder):
+        del holder.unsafe_callable
+    if "alters" in marks:
+        holder.alters_data = True
+    elif "alters_data" in vars(holder):
+        del holder.alters_data
+    holder.__name__ = "denied" if "named" in marks else "helper"
+    deny[:] = [d for d in deny if d is not target]
+    if "listed" in marks:
+        deny.append(target)
+    if receiver is not None:
+        frozen[:] = [d for d in frozen if d is not receiver]
+        if "frozen" in marks:
+            frozen.append(receiver)
+
+
+def describe(t, deny, frozen):
+    """what the specification is told about a callable: read off the object the template calls"""
+    return {"unsafe": bool(getattr(t, "unsafe_callable", False)), "alters": bool(getattr(t, "alters_data", False)),
+            "name": str(getattr(t, "__name__", type(t).__name__)), "denied": any(t is d for d in deny),
+            "recv": any(getattr(t, "__self__", None) is d for d in frozen)}
+
+
+def run_session(case):
     core.use_repo()
-    name, kind, s, aliases, site, is_async, policy = case
+    _, theme, policy, is_async, renders = case
+    rec = SessionRecorder()
+    deny, frozen = [], []
+    env = su.make_env(rec, policy=policy, deny=deny, frozen=frozen, enable_async=is_async)
+
+    class Receiver(SessionReceiver):          # the method's marks are per session
+        _jv_rec = rec
+
+        def save(self, *a, **kw):
+            return SessionReceiver.save(self, *a, **kw)
+    Receiver.save.__name__ = "helper"
+
+    store, header, srcs, texts = {}, [], [], []
+    for r, calls in enumerate(renders):
+        if r:
+            rec.emit("begin")
+        ctx = {"run": lambda *a, **kw: "S"}
+        parts, live = [], []
+        for slot, (factory, key, marks, s, aliases, site) in enumerate(calls):
+            made = store.get(key) if key else None
+            if made is None:
+                made = make_session_callable(rec, factory, is_async, Receiver)
+                if key:
+                    store[key] = made
+            obj, set_index = made
+            receiver = obj if factory == "method" else None
+            target = obj.save if factory == "method" else obj
+            set_marks(target, marks, deny, frozen, receiver)
+            set_index(len(header) + len(live) + 1)
+            live.append(target)
+            ctx.update({f"t{slot}": target, f"fd{slot}": {"k": target, "inner": {"k2": target}}, f"fl{slot}": [target],
+                        f"ob{slot}": obj})
+            parts.append(build(session_sources(factory, slot)[s], tuple(aliases), site, (), base=2 * slot))
+            del made, obj, target, receiver, set_index
+        # the marks as they are when the render starts (methods of one class share the marks of the function)
+        header += [describe(t, deny, frozen) for t in live]
+        del live[:]
+        src = "|".join(parts)
+        with warnings.catch_warnings():
+            warnings.simplefilter("ignore")
+            outcome, text = su.render(env, src, ctx, is_async)
+        rec.emit("end", s=outcome)
+        # what was made for this render only is dropped now, as a request handler would
+        deny[:] = [d for d in deny if any(d is m[0] for m in store.values())]
+        frozen[:] = [d for d in frozen if any(d is m[0] for m in store.values())]
+        ctx.clear()
+        del ctx
+        srcs.append(src)
+        texts.append(text)
+    return {"env": "sandbox", "policy": policy, "path": [], "callables": header, "ev": rec.ev}, srcs, texts
+
+
+def run_case(case):
+    if case[0] == "session":
+        return run_session(case)
+    core.use_repo()
+    name, kind, s, aliases, site, is_async, policy, vn = case
     rec = su.Recorder()
     deny = []
     env = su.make_env(rec, policy=policy, deny=deny, enable_async=is_async)
@@ -339,7 +689,12 @@ def run_case(case):
     ctx = dict(objs)
     ctx["fd"] = {"k": target, "inner": {"k2": target}}
     ctx["fl"] = [target]
-    src = build(sources(name, kind)[s], aliases, site)
+    if s == "ctx_name":                      # the application passes the callable under this name
+        ctx[vn[0]] = target
+        expr = vn[0]
+    else:
+        expr = sources(name, kind)[s]
+    src = build(expr, aliases, site, vn[1:])
     with warnings.catch_warnings():
         warnings.simplefilter("ignore")
         outcome, text = su.render(env, src, ctx, is_async)
@@ -350,20 +705,21 @@ def run_case(case):
 def design_model(ck):
     quick = ck.tier == "quick"
     r = su.gate_model(PID, "gate_model",
-                      [su.conf_tla("sandbox", "abstract", "default"), su.conf_tla("sandbox", "abstract", "denyname"),
-                       su.conf_tla("sandbox", "abstract", "denyobj")],
+                      [su.conf_tla("sandbox", "abstract", pol, multi=True)
+                       for pol in ("default", "denyname", "denyobj", "denyrecv")],
                       2 if quick else 3, ["plain"], [],
                       ["TypeOK", "C18_UnsafeNeverRuns", "C18_GrantedAreSafe"], coverage=quick, timeout=3000)
-    ck.add_tlc(r, "SandboxGate: CallGate before Run, default and deny-by-name policy")
+    ck.add_tlc(r, "SandboxGate: CallGate before Run, across renders of one environment; default, deny-by-name, "
+                  "deny-by-identity and deny-by-receiver policy")
     if quick:
-        su.require_cov(ck, r, ["MFetch", "MCallGate", "MRun"])
+        su.require_cov(ck, r, ["MFetch", "MCallGate", "MRun", "NewRender"])
 
 
 def run(ck):
     su.load_own_findings(ck, PID)
     bg = su.Background(design_model, ck)      # TLC on the design model runs while the engine is exercised
     cases = gen_cases(ck.tier, ck.seed)
-    if len(cases) > 2500:
+    if len(cases) > 6000:
         with ProcessPoolExecutor(max_workers=12) as ex:
             results = list(ex.map(run_case, cases, chunksize=200))
     else:
@@ -373,11 +729,33 @@ def run(ck):
     stats["refused"] = sum(1 for t in traces for e in t["ev"] if e["e"] == "callgate" and not e["ok"])
     stats["outcomes"] = {}
     for t in traces:
-        o = t["ev"][-1]["s"]
-        stats["outcomes"][o] = stats["outcomes"].get(o, 0) + 1
+        for e in t["ev"]:
+            if e["e"] == "end":
+                stats["outcomes"][e["s"]] = stats["outcomes"].get(e["s"], 0) + 1
+    # sessions: renders after the first one, refusals that follow a grant on the same environment (per theme)
+    stats["renders_after_first"] = sum(1 for t in traces for e in t["ev"] if e["e"] == "begin")
+    stats["refused_after_grant"] = {}
+    stats["named_variables"] = {}
+    for c, t in zip(cases, traces):
+        if c[0] == "session":
+            seen_ok = False
+            for e in t["ev"]:
+                if e["e"] == "callgate" and e["ok"]:
+                    seen_ok = True
+                elif e["e"] == "callgate" and seen_ok:
+                    stats["refused_after_grant"][c[1]] = stats["refused_after_grant"].get(c[1], 0) + 1
+        else:
+            for v in c[7]:
+                if v:
+                    stats["named_variables"][v] = stats["named_variables"].get(v, 0) + (
+                        1 if any(e["e"] == "callgate" for e in t["ev"]) else 0)
     ck.extra["events"] = stats
     if not (stats["callgate"] and stats["ran"] and stats["refused"]):
         raise core.MachineryError(f"vacuous traces: {stats}")
+    if any(not stats["refused_after_grant"].get(th) for th in ("fresh", "receiver", "remark", "mixed")):
+        raise core.MachineryError(f"vacuous sessions: no refusal after a grant: {stats['refused_after_grant']}")
+    if any(not stats["named_variables"].get(v) for v in ENGINE_NAMES):
+        raise core.MachineryError(f"vacuous name sweep: {stats['named_variables']}")
     bad = {o: n for o, n in stats["outcomes"].items() if o in ("TemplateSyntaxError", "TemplateAssertionError")}
     if bad:
         raise core.MachineryError(f"generator produced templates Jinja rejects: {bad}")
@@ -385,12 +763,25 @@ def run(ck):
         case = cases[idx]
         t, src, text = results[idx]
         ev = t["ev"][stuck - 1] if stuck else {"e": "?"}
-        name, kind, s, aliases, site, is_async, policy = case
+        what = (f"event {ev['e']}(callable={ev.get('v')}, ok={ev.get('ok')}, s={ev.get('s')!r}) is not allowed by "
+                f"SandboxGate (an unsafe callable ran, or the refusal did not raise SecurityError)")
+        if case[0] == "session":
+            _, theme, policy, is_async, renders = case
+            r = sum(1 for e in t["ev"][:stuck or 0] if e["e"] == "begin")
+            v = ev.get("v") or 0
+            marks = t["callables"][v - 1] if 0 < v <= len(t["callables"]) else None
+            ck.violation({"kind": "session", "case": list(case), "src": src, "events": t["ev"], "stuck": stuck, "output": text},
+                         f"sandbox ({'async' if is_async else 'sync'}, policy {policy}), one environment, render "
+                         f"{r + 1} of {len(renders)} ({theme}): `{src[r]}` after {src[:r]} with call {v} = {renders[r]} "
+                         f"(marks of the called object {marks}): {what}; events "
+                         f"{[(e['e'], e['v'], e['ok'], e['s']) for e in t['ev']]}",
+                         {"kind": "unsafe-callable-session", "theme": theme, "event": ev["e"], "policy": policy,
+                          "render": renders[r]})
+            continue
+        name, kind, s, aliases, site, is_async, policy, vn = case
         ck.violation({"kind": "call", "case": list(case), "src": src, "events": t["ev"], "stuck": stuck, "output": text},
                      f"sandbox ({'async' if is_async else 'sync'}, policy {policy}): `{src}` with callable {name} "
-                     f"({kind}, marks {t['callables'][NAMES_.index(name)]}): event {ev['e']}"
-                     f"(callable={ev.get('v')}, ok={ev.get('ok')}, s={ev.get('s')!r}) is not allowed by SandboxGate "
-                     f"(an unsafe callable ran, or the refusal did not raise SecurityError); events "
+                     f"({kind}, marks {t['callables'][NAMES_.index(name)]}): {what}; events "
                      f"{[(e['e'], e['v'], e['ok'], e['s']) for e in t['ev']]}",
                      {"kind": "unsafe-callable", "callable": name, "site": site, "event": ev["e"], "policy": policy})
     ck.traces += len(traces)
@@ -399,7 +790,7 @@ def run(ck):
     ck.extra["sites"] = sorted(SITES)
     ck.extra["aliases"] = sorted(ALIASES)
     for i in (0, len(cases) // 2, len(cases) - 1):
-        ck.sample({"template": results[i][1], "callable": cases[i][0], "policy": cases[i][6],
+        ck.sample({"template": results[i][1], "callable": cases[i][0], "policy": cases[i][2 if cases[i][0] == "session" else 6],
                    "events": [(e["e"], e["v"], e["ok"], e["s"]) for e in traces[i]["ev"]]})
     bg.join()
     ck.exhaustive = False
@@ -421,7 +812,9 @@ def run(ck):
 def replay(ck, rec):
     su.load_own_findings(ck, PID)
     c = rec["case"]["case"]
-    c[3] = tuple(c[3])
+    if c[0] != "session":
+        c[3] = tuple(c[3])
+        c[7:] = [tuple(c[7]) if len(c) > 7 else ()]
     t, src, text = run_case(tuple(c))
     if su.validate(ck, PID, [t], "replay"):
         ck.violation(rec["case"], "trace still rejected by SandboxTrace", rec.get("fingerprint"))
